@@ -456,6 +456,7 @@ theorem c12_nesting_bounded_extracted (m : Nat → FType) (f : Nat) (toks : List
 theorem c12_x_type_switch :
     seqqlTypeCases = ["TokenizerTypeKeyword,TokenizerTypePath", "TokenizerTypeText"] ∧
     legacyTypeCases = ["TokenizerTypeText", "TokenizerTypeKeyword,TokenizerTypePath"] ∧
+    seqqlTypeSwitchFunc = "parseFulltextSearchFilter" ∧ legacyTypeSwitchFunc = "parseLiteral" ∧
     seqqlTypeDefault = "return-error" ∧ legacyTypeDefault = "return-error" ∧
     seqqlDefaultPanics = false ∧ legacyDefaultPanics = false ∧
     [ttNoop, ttKeyword, ttText, ttObject, ttTags, ttPath, ttNested, ttExists] = [0, 1, 2, 3, 4, 6, 7, 8] := by decide
